@@ -317,7 +317,10 @@ impl EffectBackend for SimBackend {
             }
             NativeEffect::TcpConnect { port, .. } => {
                 let op = BackendOp::Open { path: format!("tcp-connect:{port}") };
-                let Some(lrid) = st.listeners.iter().find(|(_, (p, _))| *p == port).map(|(r, _)| *r) else {
+                if fault.is_some() {
+                    st.fired("connect_error");
+                }
+                let Some(lrid) = st.listeners.iter().find(|(_, (p, _))| *p == port).map(|(r, _)| *r).filter(|_| fault.is_none()) else {
                     return {
                         let res: Result<Option<EffectResult>, Error> = Ok(Some(Err(EffectError::IO("Connection refused".to_string()))));
                         st.history.push(BackendRec::Execute { step, pid, op, outcome: "effect-error:refused".to_string(), new_rid: None });
@@ -346,8 +349,13 @@ impl EffectBackend for SimBackend {
             }
             NativeEffect::TcpListenerAccept { resource_id } => {
                 let op = BackendOp::Read { rid: resource_id };
+                let injected = fault.is_some() && st.listeners.contains_key(&resource_id);
+                if injected {
+                    st.fired("accept_error");
+                }
                 match st.listeners.get_mut(&resource_id) {
                     None => (op, Err(Error::InvalidArgument(format!("Resource {} not found", resource_id)))),
+                    Some(_) if injected => (op, Ok(Some(Err(EffectError::IO("Accept error: injected".to_string()))))),
                     Some((_, q)) if !q.is_empty() => {
                         let end = q.remove(0);
                         let rid = st.next_rid;
@@ -374,8 +382,24 @@ impl EffectBackend for SimBackend {
             NativeEffect::TcpSocketRead { resource_id, length } => {
                 assert!(length <= 1usize << 34, "memory allocation of {length} bytes failed (read buffer of the requested length)");
                 let op = BackendOp::Read { rid: resource_id };
+                let known = st.sockets.contains_key(&resource_id);
+                let length = match fault {
+                    Some(FaultKind::Short) if known && length > 1 => {
+                        st.fired("socket_short_read");
+                        1
+                    }
+                    _ => length,
+                };
                 match st.sockets.get(&resource_id).copied() {
                     None => (op, Err(Error::InvalidArgument(format!("Resource {} not found", resource_id)))),
+                    Some(_) if fault == Some(FaultKind::SubmitError) => {
+                        st.fired("socket_read_submit_error");
+                        (op, Err(Error::InvalidArgument("Failed to submit read: injected".to_string())))
+                    }
+                    Some(_) if fault == Some(FaultKind::CompleteError) => {
+                        st.fired("socket_read_error");
+                        (op, Ok(Some(Err(EffectError::IO("Read error: connection reset (injected)".to_string())))))
+                    }
                     Some(end) => {
                         if !st.ends[end].inbox.is_empty() || st.ends[end].peer_closed {
                             let n = length.min(st.ends[end].inbox.len());
@@ -392,13 +416,27 @@ impl EffectBackend for SimBackend {
                 let op = BackendOp::Write { rid: resource_id, len: data.len() };
                 match st.sockets.get(&resource_id).copied() {
                     None => (op, Err(Error::InvalidArgument(format!("Resource {} not found", resource_id)))),
+                    Some(_) if fault == Some(FaultKind::SubmitError) => {
+                        st.fired("socket_write_submit_error");
+                        (op, Err(Error::InvalidArgument("Failed to submit write: injected".to_string())))
+                    }
+                    Some(_) if fault == Some(FaultKind::CompleteError) => {
+                        st.fired("socket_write_error");
+                        (op, Ok(Some(Err(EffectError::IO("Write error: connection reset (injected)".to_string())))))
+                    }
                     Some(end) => {
                         let peer = st.ends[end].peer;
                         if st.ends[end].peer_closed {
                             (op, Ok(Some(Err(EffectError::IO("Write error: broken pipe".to_string())))))
                         } else {
-                            let n = data.len();
-                            st.ends[peer].inbox.extend_from_slice(&data);
+                            let n = if fault == Some(FaultKind::Short) && data.len() > 1 {
+                                st.fired("socket_short_write");
+                                data.len() / 2
+                            } else {
+                                data.len()
+                            };
+                            let data = &data[..n];
+                            st.ends[peer].inbox.extend_from_slice(data);
                             st.wake_reads(peer);
                             (op, Ok(Some(Ok((Value::Integer(n.into()), vec![])))))
                         }
